@@ -23,7 +23,7 @@ CHECKS = {
    note=E1_NOTE + " The closed-loop cases use the E2 engine (real sidecars, simulated Prometheus)."),
  "C07": dict(engine="E1 stub-cycle", level="exploration", ref="DESIGN.md §5 C07",
    technique="runtime monitoring: every ChangeScale argument of a cycle judged against bounds / last-needed-shard / no-shrink rules; exhaustive enumeration of shard-kind tuples",
-   text="All 1554 tuples of shard kinds {loaded, idle-fresh, idle-expired, unready, out-of-sync, unreachable} over 1-4 positions x 4 new-target situations x 5 (min,max) x 2 idle-time settings are executed (exhaustive over that grid), then random 1-5 shard cases. Every scale request (early min-shard request included) must lie in [min,max], not below the last shard that is out of sync / holds or was given a target / is not idle long enough, and not below the current count when idle time is 0 or a placeable target is still unassigned.",
+   text="All 1554 tuples of shard kinds {loaded, idle-fresh, idle-expired, unready, out-of-sync, unreachable} over 1-4 positions x 4 new-target situations x 5 (min,max) x 2 idle-time settings are executed (exhaustive over that grid), then random 1-5 shard cases. Every scale request (early min-shard request included) must lie in [min,max], not below the last shard that is out of sync / holds or was given a target / is not idle long enough, and not below the current count when idle time is 0 or a placeable target is still unassigned. Closed-loop cases on real sidecars add a removal monitor on the harness clock (a removed shard was seen holding targets, or created, at a known instant; it must have been removed more than max-idle-time later; worlds with idle time 0 or 1000 h must never shrink) and a directed sequence in which the update that ends an idle period fails half-way.",
    note=E1_NOTE + " Idle expiry is scripted as 1 h old vs. a 30 min limit (or 1 s old), so no verdict depends on wall-clock precision."),
  "C08": dict(engine="E1 stub-cycle", level="exploration", ref="DESIGN.md §5 C08",
    technique="runtime monitoring: per-shard request log judged against 'left alone until in sync' rules; exhaustive enumeration of health-kind tuples",
